@@ -30,6 +30,8 @@ def build(t):
         return a + b if op == 'add' else a - b if op == 'sub' else a * b
     if op == 'dx':
         return build(t[1]).dx(t[2])
+    if op in ('sq', 'dbl'):           # the same GF object on both sides of the operator
+        g = build(t[1]); return g * g if op == 'sq' else g + g
     g, c = build(t[1]), pf(t[2])
     return {'scale': lambda: g * c, 'div': lambda: g / c, 'addc': lambda: g + c, 'subc': lambda: g - c}[op]()
 
@@ -42,6 +44,8 @@ def rpn(t, out):
         rpn(t[1], out); rpn(t[2], out); out.append(op)
     elif op == 'dx':
         rpn(t[1], out); out.append(f"dx {t[2]}")
+    elif op in ('sq', 'dbl'):
+        rpn(t[1], out); out.append("dup"); out.append('mul' if op == 'sq' else 'add')
     else:
         rpn(t[1], out); out.append(f"{op} {fr(pf(t[2]))}")
 
@@ -73,6 +77,8 @@ def plist(t):
     if op == 'sub': return padd(plist(t[1]), [-x for x in plist(t[2])])
     if op == 'mul': return pmul(plist(t[1]), plist(t[2]))
     if op == 'dx': return pdx(plist(t[1]), t[2])
+    if op == 'sq': return pmul(plist(t[1]), plist(t[1]))
+    if op == 'dbl': return padd(plist(t[1]), plist(t[1]))
     a, c = plist(t[1]), pf(t[2])
     if op == 'scale': return [x * c for x in a]
     if op == 'div': return [x / c for x in a]
@@ -117,9 +123,13 @@ def gen(rnd, depth):
     if depth == 0 or rnd.random() < 0.2:
         n = rnd.choice([1, 1, 2, 3, 4, 5])
         return ['cs', [fr(F(rnd.randint(-5, 5), rnd.randint(1, 4))) for _ in range(n)]]
-    op = rnd.choice(['add', 'sub', 'mul', 'mul', 'scale', 'div', 'dx', 'dx', 'addc', 'subc'])
+    op = rnd.choice(['add', 'sub', 'mul', 'mul', 'scale', 'div', 'dx', 'dx', 'addc', 'subc', 'sq', 'sq', 'dbl'])
+    pd = max(depth - 2, 0)              # products count double: their derivatives unfold into 2^k products
+    if op in ('sq', 'dbl'):
+        return [op, gen(rnd, pd if op == 'sq' else depth - 1)]
     if op in ('add', 'sub', 'mul'):
-        return [op, gen(rnd, depth - 1), gen(rnd, depth - 1)]
+        d = pd if op == 'mul' else depth - 1
+        return [op, gen(rnd, d), gen(rnd, d)]
     if op == 'dx':
         return ['dx', gen(rnd, depth - 1), rnd.choice([0, 1, 1, 2, 3, 5])]
     return [op, gen(rnd, depth - 1), fr(F(rnd.randint(-3, 3) or 1, rnd.randint(1, 3)))]
@@ -138,6 +148,7 @@ def shapes(d):
             for b in sub:
                 yield [op, a, b]
     for a in sub:
+        yield ['sq', a]; yield ['dbl', a]
         yield ['scale', a, '-2/3']; yield ['div', a, '2']; yield ['addc', a, '1/3']; yield ['dx', a, 1]; yield ['dx', a, 2]
 
 
